@@ -1,5 +1,6 @@
 """C25 — Coroutine-local storage is private, map-like, and released with the coroutine (structural clauses)."""
 from rules.common import start
+from rules import wave2
 from rules import coro
 
 
@@ -11,4 +12,8 @@ def run(tier):
         not_decided=["type confusion through get::<V> with a wrong V"],
         assumptions=[])
     coro.local_rule(run, fx["core/default"], "C25-PRIVATE", "C25-MAPLIKE", "C25-RELEASE")
+    # clauses added for the wave-2 seeds (rules/wave2.py; DESIGN 12a)
+    f = fx["core/default"]
+    wave2.local_deleters_rule(run, f, "C25-DELETERS")
+    wave2.current_ends_rule(run, f, "C25-CURRENT-ENDS")
     return run.finish()
